@@ -207,7 +207,7 @@ class Unit:
     def do_item(self, rel, kind, name, kw):
         src = self.src(rel)
         try:
-            it = src.find(kind, name)
+            it = src.find(kind, name, within=src.find_impl(kw['impl'])) if kw.get('impl') else src.find(kind, name)
         except LookupError as e:
             if kw.get('optional'):
                 return
